@@ -409,7 +409,21 @@ fn walk_chunk_inner(w: &mut W, ctype: u16, frame: usize, m: &mut Map) -> Option<
             w.blob(8, "reserved", Kind::Reserved)?;
             if t == 2 {
                 let l = w.u32("icc-len", Kind::Length)? as usize;
-                w.blob(l, "icc", Kind::Payload)?;
+                if l >= 4 && w.left() >= l {
+                    // an ICC profile starts with its own size, big-endian: a second copy of the
+                    // length that a reader may compare the first one with
+                    w.fields.push(Field {
+                        off: w.pos,
+                        width: 4,
+                        chunk: w.chunk,
+                        name: "icc-size-be",
+                        kind: Kind::Length,
+                    });
+                    w.pos += 4;
+                    w.blob(l - 4, "icc", Kind::Payload)?;
+                } else {
+                    w.blob(l, "icc", Kind::Payload)?;
+                }
             }
         }
         0x2008 => {
